@@ -177,3 +177,33 @@ package ischema
 //@   loop#1 invariant forall k constraint.Type :: (k in m.data) && m.$pos[k] <= rangeindex ==> m.data[k] == call(fn, k, old(m.data[k]))
 //@   loop#1 invariant forall k constraint.Type :: (k in m.data) && m.$pos[k] > rangeindex ==> m.data[k] == old(m.data[k])
 //@   loop#1 decreases len(m.order) - rangeindex
+
+// ---- type table of a schema (C05): lookups succeed exactly for registered names -------------------------
+
+//@ func (ISchema).Type
+//@   property C05
+//@   ensures (result1 == nil) == (name in s.types)
+//@   ensures name in s.types ==> result0 == s.types[name].Schema
+//@   ensures !(name in s.types) ==> result0 == nil && result1.Code_ == 1302
+//@   no_panic
+
+//@ func (ISchema).MustType
+//@   property C05
+//@   panics when !(name in s.types)
+//@   ensures result == s.types[name].Schema
+
+//@ func (*ISchema).addType
+//@   property C05
+//@   requires s != nil && s.types != nil
+//@   modifies mapof(s.types)
+//@   panics when name in s.types
+//@   ensures name in s.types && s.types[name].Schema == schema && s.types[name].RootFile == rootFile && s.types[name].Begin == begin
+//@   ensures forall k string :: k != name ==> ((k in s.types) == old(k in s.types)) && s.types[k] == old(s.types[k])
+
+//@ func (*ISchema).AddType
+//@   property C05
+//@   requires s != nil && s.types != nil
+//@   modifies mapof(s.types)
+//@   ensures n in s.types && s.types[n] == t
+//@   ensures forall k string :: k != n ==> ((k in s.types) == old(k in s.types)) && s.types[k] == old(s.types[k])
+//@   no_panic
